@@ -166,6 +166,18 @@ CHECKS = {
         design_ref='6/C09',
         note='Trusted: my transcription of the protocol documents; harness/wire_starttls.py; native order = little endian.',
         technique='independent TLA+ reference encoder evaluated by TLC on recorded and generated messages'),
+    'C14': dict(
+        category='model_checking',
+        text='Serialize.tla models the serialisation state (label cache, encoder slot, set iteration order chosen by the hash '
+             'seed); TLC proves Deterministic over all histories, restarts and set orders and rejects the two as-coded defect '
+             'shapes (cache keyed by field name, unsorted sets). Implementation: the same deterministic list of objects (all '
+             'corpus classes, field variations, non-Serializable values inside a result object) is serialised twice as JSON and '
+             'Markdown in 4-5 fresh processes that differ in PYTHONHASHSEED and serialisation order, and after a compose/parse '
+             'round trip; Trace_Serialize checks totality, well-formedness, repeatability and equality across environments.',
+        design_ref='6/C14',
+        note='Trusted: json.loads as the standard JSON parser (TLC\'s Json module rejects null); faithfulness of the rendering '
+             'is not decided, only totality, well-formedness, determinism and stability under round trip.',
+        technique='TLA+ serialisation state machine checked by TLC; trace validation across process environments'),
 }
 
 NOT_APPLICABLE = {}
